@@ -154,6 +154,31 @@ def run(ctx, prog, res):
                          "the reporting guard does not compare (end - start) of the interval it reports with the bound: %s %s bound" % (g["diff"], g["op"]), lib.where_of(nx))
     r2.floor(5)
 
+    # R7 -------------------------------------------------------------------------------------
+    r7 = res.rule("C16.R7", "an interval reported as infinite is the last one (`consider that any interval bigger than this size is infinite`): on the approximating branch of the iterator's next(), before the interval start..DATE_END is returned, the iterator's own position is changed - a call or store through `&mut self.curr_schedule` / `self.curr_date` - so that it does not go on from the place where its early exit stopped and report further intervals that overlap the infinite one")
+    if len(gs) == 1 and len([1 for bb, t in news if nx.dominates(gs[0]["true_bb"], bb)]) == 1:
+        g = gs[0]
+        abb = [bb for bb, t in news if nx.dominates(g["true_bb"], bb)][0]
+        touched = set()
+        for bb, b in nx.live_blocks():
+            if not nx.dominates(g["true_bb"], bb):
+                continue
+            for st in b["stmts"]:
+                if st["k"] != "assign":
+                    continue
+                for (adt_, _v, fld) in lib.place_fields(st["dst"]):
+                    if adt_.endswith("TimeDomainIterator") and fld in ("curr_schedule", "curr_date"):
+                        touched.add(fld)
+                if st["rv"]["k"] == "ref" and st["rv"].get("mut"):
+                    for (adt_, _v, fld) in lib.place_fields(st["rv"]["pl"]):
+                        if adt_.endswith("TimeDomainIterator") and fld in ("curr_schedule", "curr_date"):
+                            touched.add(fld)
+        r7.check("curr_schedule" in touched, {"fn": nx.id.split("::")[-1], "approximating_branch_changes": sorted(touched)}, "C16.R7:last",
+                 "the iterator reports start..DATE_END on its approximating branch and leaves its position as the early exit left it (changes on that branch: %s): the following calls of next() report further intervals inside the one that was declared infinite - overlapping, not increasing" % (sorted(touched) or "none"), lib.where_of(nx))
+    else:
+        r7.anchor_missing("the approximating branch of TimeDomainIterator::next")
+    r7.floor(1)
+
     # R3 -------------------------------------------------------------------------------------
     r3 = res.rule("C16.R3", "the early exit of the consuming loop only stops consuming: the taken branch of its guard returns without any further call or store")
     gc = guards(cu)
